@@ -30,6 +30,9 @@ package executor
 //@   safety off
 //@   modifies alloc, nStart, nTraversed, pauseTokens
 //@   callsite Executor.startRemoteRequest: assert nStart == old(nStart) && dyntype(result.Err) == typetag("graphsync.RemoteMissingBlockErr")
+//@   -- C02: on that first miss the loader is switched online before the remote is asked, and the load is retried after
+//@   callsite ReconciledLoader.SetRemoteOnline: assert arg0 == true && nStart == old(nStart)
+//@   callsite ReconciledLoader.RetryLastLoad: assert nStart == old(nStart) + 1
 //@   loop 1 invariant nStart == old(nStart) + ite(requestSent, 1, 0)
 //@   ensures nStart <= old(nStart) + 1
 
